@@ -525,6 +525,16 @@ func (w *kqueue) readEvents() {
 						if !w.sendError(err) {
 							return
 						}
+					} else if _, ok := w.watches.byPath(filepath.Dir(fileDir)); ok {
+						// An entry of a watched directory that was a directory
+						// itself: its name may be in use again as well (rmdir
+						// sub; mkdir sub, or a file under that name).
+						if fi, err := os.Lstat(fileDir); err == nil {
+							err := w.sendCreateIfNew(fileDir, fi)
+							if !w.sendError(err) {
+								return
+							}
+						}
 					}
 				} else {
 					path := filepath.Clean(event.Name)
@@ -535,7 +545,7 @@ func (w *kqueue) readEvents() {
 						}
 					}
 				}
-			} else if event.Has(Rename) && !path.isDir {
+			} else if event.Has(Rename) {
 				// The name may be in use again already (mv f1 f2; touch f1)
 				// if we got here late: the directory's event comes first,
 				// when f1 was still marked as seen, so look again like above.
